@@ -64,6 +64,8 @@ ALPHA_EXTRA = [  # thorough only
 QUERY = ("core.file", "core.imagefile", "core.dir", "core.bib")
 
 SCENARIOS = [
+    # user data that merely looks like the deletion marker (one byte 0x7f of a numeric type): a value, never a deletion
+    [["set", "a", {"__np__": "uint8", "value": 127}], ["set", "g/c", {"__np__": "int8", "value": 127}], ["setattr", "g/c", "k", {"__np__": "uint8", "value": 127}], ["del", "a"], ["set", "a", {"__np__": "uint8", "value": 127}]],
     [["set", "a/x", 1], ["set", "a/y", 2], ["del", "a"], ["set", "a/z", 3], ["set", "a/w", 4]],
     [["mkgrp", "a"], ["set", "a/x", 1], ["meta", "a", "dir1"], ["meta", "a/x", "file1"], ["copy", "a", "b", {}], ["del", "a"]],
     [["set", "d", 1], ["meta", "d", "img1"], ["move", "d", "e"], ["delmeta", "e", "core.imagefile"]],
